@@ -117,6 +117,14 @@ def body():
             for v in (0x00, 0xff) if q else (0x00, 0x7f, 0x80, 0xff):
                 if seed[off] != v:
                     addm(target, variant, seed[:off] + bytes([v]) + seed[off + 1:], "set%d=%02x" % (off, v))
+    # CBC inner plaintexts of every length class with every boundary value of the padding-length byte: L bytes = free bytes || (p + 1) bytes of value p,
+    # for p around L - 33 (the largest honest value), L - 32, L - 31, L - 1 and 255 -- the arithmetic content = L - 32 - p - 1 must never go negative unnoticed
+    for L in ([48, 64, 80, 272] if q else list(range(48, 320, 16))):
+        for p in sorted({L - 35, L - 34, L - 33, L - 32, L - 31, L - 30, L - 17, L - 2, L - 1, 0, 1, 15, 16, 255} & set(range(0, 256))):
+            if p + 1 <= L:
+                free = bytes(rng.getrandbits(8) for _ in range(L - p - 1))
+                addm("tls_cbc_inner", 0, free + bytes([p]) * (p + 1), "padsweep:L%d:p%d" % (L, p))
+            addm("tls_cbc_inner", 0, bytes(rng.getrandbits(8) for _ in range(L - 1)) + bytes([p]), "padbyte:L%d:p%d" % (L, p))
     log("[C06] %d seed objects, %d mutants" % (len(seeds), len(mlines)))
     resm = CL.run_script("fuzzdrv", ["fuzzdrv.c", "vh.c"], mlines, tag="c06m", procs=16, timeout=1800)
     accepted = 0
